@@ -273,6 +273,12 @@ func rulesC04(p *Prog, r *Report) {
 							continue
 						}
 						for _, rr := range *t.Referrers() {
+							if ret, isRet := rr.(*ssa.Return); isRet && len(ret.Results) == 1 && isBoolType(ret.Results[0].Type()) {
+								// a validity predicate: the oracle's verdict is handed back as a boolean; the
+								// callers' use of it is judged where they record invalid elements (V5)
+								tested = true
+								continue
+							}
 							ifi, ok := rr.(*ssa.If)
 							if !ok {
 								continue
@@ -399,7 +405,21 @@ func rulesC04(p *Prog, r *Report) {
 			}
 			g := qz.prov(gs[0].c, 0)
 			wantG := "(spdxexp.parse(elem(param:" + vl.Params[0].Name() + "))#1 != nil)"
-			if g != wantG || !gs[0].pol {
+			// the same through a validity predicate (isValid(x): _, err := parse(x); return err == nil): the
+			// guard's formula with helpers inlined, parse itself opaque
+			okPred := false
+			{
+				iq := &quantizer{p: p, elemVar: map[ssa.Value]string{}, inlineAll: true, stop: map[string]bool{}, opaque: map[*ssa.Function]bool{parse: true}}
+				f := normQF(iq.boolOf(gs[0].c, map[*ssa.Phi]*qf{}))
+				if !gs[0].pol {
+					f = qNot(f)
+				}
+				wantAtom := canonAtom("(spdxexp.parse(elem(param:" + vl.Params[0].Name() + "))#1 == nil)")
+				if f.Op == "not" && len(f.Args) == 1 && f.Args[0].Op == "atom" && f.Args[0].Atom == wantAtom {
+					okPred = true
+				}
+			}
+			if (g != wantG || !gs[0].pol) && !okPred {
 				why = "the element is recorded under " + g + ", not under 'parse(element) fails'"
 				continue
 			}
